@@ -18,7 +18,8 @@ for sid in sorted(os.listdir("/verif/seeded")):
     summ = " ".join(str(m.get("summary", "")).split())
     if len(summ) > 230:
         summ = summ[:227] + "..."
-    rows.append("| %s | %s | %s | %s |" % (sid, summ.replace("|", "/"), fmt({k: v for k, v in first.items() if "after" not in k}), fmt(fin)))
+    sup = " (superseded by a later fix: can no longer manifest)" if "superseded" in m.get("confirmed", {}) else ""
+    rows.append("| %s | %s | %s | %s |" % (sid, summ.replace("|", "/") + sup, fmt({k: v for k, v in first.items() if "after" not in k}), fmt(fin)))
 print("| seed | change (summary by its author) | first run (check as it was) | final sweep |")
 print("|---|---|---|---|")
 print("\n".join(rows))
